@@ -99,7 +99,8 @@ class CoqTree:
         for p in f['primitives']:
             k = p['kind']
             img = '(Some %s)' % self.group(k['root']) if k['k'] == 'Image' else 'None'
-            ps.append('(PR %d %d [%s] %s)' % (FE_KINDS.index(k['k']) + 1, self.s(p['result']),
+            sub = sum(bit for bit, a, b in zip((1, 2, 4, 8), p['rect'], f['rect']) if a != b)
+            ps.append('(PR %d %d %d [%s] %s)' % (FE_KINDS.index(k['k']) + 1, sub, self.s(p['result']),
                                               '; '.join(self.inp(i) for i in prim_inputs(k)), img))
         return '(FD %d %d [%s])' % (self.ptr(f['ptr']), self.s(f['id']), '; '.join(ps))
 
